@@ -92,6 +92,7 @@ class Gen:
         elif skips:
             attr.append("skip(%s)" % ", ".join(skips))
         custom = []
+        kinds = {}
         if fields == "expr":
             attr.append("fields(extra = a + 1)")
             custom = ["extra"]
@@ -104,6 +105,16 @@ class Gen:
         elif fields == "dotted":
             attr.append("fields(http.status = 200, who = %a)")
             custom = ["http.status", "who"]
+            kinds = {"http.status": "value", "who": "display"}
+        elif fields == "sigil_pre":
+            # `?` / `%` written before the field name: shorthand for the variable of that name, rendered with Debug / Display
+            attr.append("fields(?a, shown = %a)")
+            custom = ["a", "shown"]
+            kinds = {"a": "debug", "shown": "display"}
+        elif fields == "sigil_val":
+            attr.append("fields(d = ?a, s = %a, later)")
+            custom = ["d", "s", "later"]
+            kinds = {"d": "debug", "s": "display", "later": "empty"}
         elif fields == "dotted_same":
             # first and last segment are both the parameter's name: still a different field than the parameter
             attr.append("fields(a.a = 1)")
@@ -121,6 +132,10 @@ class Gen:
             mode, err_level = err
             inner = [x for x in (mode, 'level = "%s"' % err_level if err_level else None) if x]
             attr.append("err" + ("(%s)" % ", ".join(inner) if inner else ""))
+        # the order of the attribute's arguments carries no meaning: write them in a different rotation each time
+        if attr:
+            k = self.n % len(attr)
+            attr = attr[k:] + attr[:k]
         gen = "<%s>" % ", ".join(generics) if generics else ""
         sig = "%sfn %s%s(%s) -> %s" % ("async " if is_async else "", "{n}", gen, ", ".join(params), RET_TY[rk])
         self.src.append("#[instrument(%s)]\npub %s {{ %s }}\npub %s {{ %s }}\n" % (
@@ -144,9 +159,14 @@ class Gen:
                 e["err_level"] = err_level.upper()
         if is_async:
             e["async"] = True
+        if kinds:
+            e["kinds"] = kinds
         if "pair" in args:
             # x and y are bound by a tuple-struct pattern: recorded with Debug although they are u64
             e["debug_value_bindings"] = sum(1 for i in ("x", "y") if i not in skips and i not in custom)
+        if fields in ("sigil_pre", "sigil_val"):
+            # `?a` / `d = ?a`: the u64 parameter goes through field::debug because the attribute says so
+            e["debug_value_bindings"] = e.get("debug_value_bindings", 0) + 1
         self.expect["generated::" + fn] = e
 
 
@@ -164,7 +184,7 @@ def one(g, rng, rk=None, body_i=None, is_async=None):
     target = pick(rng, [None, None, "tgt::x"])
     idents = ["a"] + [i for k in args for i in ARGS[k][1]]
     skips = [i for i in idents if rng.random() < 0.25]
-    fields = pick(rng, [None, None, "expr", "lit", "shadow", "dotted", "dotted_leaf", "dotted_same"])
+    fields = pick(rng, [None, None, "expr", "lit", "shadow", "dotted", "dotted_leaf", "dotted_same", "sigil_pre", "sigil_val"])
     if fields in ("expr", "dotted") and "a" in skips:
         pass    # field expressions may still use skipped arguments
     ret = None
@@ -190,7 +210,7 @@ def config(rng):
     return dict(rk=rk, body_i=rng.randrange(len(BODIES[rk])), is_async=rng.random() < 0.4, args=args, level=pick(rng, LEVELS),
                 name=pick(rng, [None, None, "custom name"]), target=pick(rng, [None, None, "tgt::x"]),
                 skips=[i for i in idents if rng.random() < 0.25],
-                fields=pick(rng, [None, None, "expr", "lit", "shadow", "dotted", "dotted_leaf", "dotted_same"]), ret=ret, err=err,
+                fields=pick(rng, [None, None, "expr", "lit", "shadow", "dotted", "dotted_leaf", "dotted_same", "sigil_pre", "sigil_val"]), ret=ret, err=err,
                 skip_all=rng.random() < 0.12)
 
 
@@ -248,7 +268,7 @@ def canonical(g):
         g.add("value", 1, True, [k], None, None, None, ARGS[k][1], None, None, None)
     g.add("value", 2, False, list(ARGS), "warn", "all args", "tgt::all", ["b"], "lit", (None, None), None)
     g.add("result", 0, True, list(ARGS), "error", None, None, ["a", "x"], "shadow", None, (None, None))
-    for f in ("expr", "lit", "shadow", "dotted", "dotted_leaf", "dotted_same"):
+    for f in ("expr", "lit", "shadow", "dotted", "dotted_leaf", "dotted_same", "sigil_pre", "sigil_val"):
         g.add("value", 0, False, ["b"], None, None, None, [], f, None, None)
         g.add("unit", 0, True, [], None, None, None, [], f, None, None)
     # skip_all: no parameter is recorded (custom fields still are), sync and async, with arguments of every kind
